@@ -235,13 +235,11 @@ mod verif_c18_cid_binding {
         if bound {
             assert!(last.is_ok(), "C18.cid.client.matching_ids_accepted");
             assert!(p.is_remote_params_ready(), "C18.cid.client.ready_when_bound");
-            assert!(poll_is_ready(&mut p), "C18.cid.client.poll_ready_when_bound");
             assert!(p.remembered().is_none(), "C18.cid.client.remembered_dropped_when_ready");
             assert!(p.client().is_some() && p.server().is_some(), "C18.cid.client.both_sets_visible_when_ready");
         } else {
             assert!(is_tp_error(&last), "C18.cid.client.mismatch_is_transport_parameter_error");
             assert!(!p.is_remote_params_ready(), "C18.cid.client.never_ready_on_mismatch");
-            assert!(!poll_is_ready(&mut p), "C18.cid.client.poll_pending_on_mismatch");
             assert!(p.server().is_none(), "C18.cid.client.peer_set_hidden_on_mismatch");
         }
         assert!(p.role() == Role::Client, "C18.cid.client.sup.role_unchanged");
@@ -286,12 +284,10 @@ mod verif_c18_cid_binding {
         if bound {
             assert!(last.is_ok(), "C18.cid.server.matching_id_accepted");
             assert!(p.is_remote_params_ready(), "C18.cid.server.ready_when_bound");
-            assert!(poll_is_ready(&mut p), "C18.cid.server.poll_ready_when_bound");
             assert!(p.client().is_some() && p.server().is_some(), "C18.cid.server.both_sets_visible_when_ready");
         } else {
             assert!(is_tp_error(&last), "C18.cid.server.mismatch_is_transport_parameter_error");
             assert!(!p.is_remote_params_ready(), "C18.cid.server.never_ready_on_mismatch");
-            assert!(!poll_is_ready(&mut p), "C18.cid.server.poll_pending_on_mismatch");
             assert!(p.client().is_none(), "C18.cid.server.peer_set_hidden_on_mismatch");
         }
         assert!(p.role() == Role::Server, "C18.cid.server.sup.role_unchanged");
